@@ -212,6 +212,9 @@ def build_history(r, k: dict, *, n_lo=30, n_hi=220) -> list[dict]:
             if g is not None:
                 if g[37:41] in ("000C", "0005") or (g[37:41] in ZONE_CODES and g[46:48] != f[46:48]):
                     c("hist_topology_edit")  # the edit changes what the history says about who is where
+                if g[37:41] == "000C" and g != f and r.random() < 0.5:
+                    seq.append((dtm, f, src))  # the controller first says the one thing, then the other (both are in the history)
+                    c("hist_contradicting_pair")
                 f = g
                 c("hist_targeted_extreme")
         elif r.random() < p_mut:
@@ -702,6 +705,7 @@ async def run(ctx) -> None:
     probe_n = [0]
     n_rx = 0
     place: dict = {}
+    roles_seen: dict = {}
     n_inc_seen = [0]
     dead = [False]
 
@@ -824,12 +828,37 @@ async def run(ctx) -> None:
         new = graph_check(ctx, gwy, where)
         moved = [(d, place[d], new[d]) for d in sorted(new) if d in place and place[d][1] != new[d][1]]
         n_now = inconsistencies()
+        n_inc_before = n_inc_seen[0]
         if moved and n_now == n_inc_seen[0]:
             d, a, b = moved[0]
             ctx.violate("C15", "moved_silently", "", f"{where}: {d} moved from parent {a[1]} (ctl {a[0]}, child_id {a[2]}) to "
                         f"{b[1]} (ctl {b[0]}, child_id {b[2]}) and no inconsistency was reported")
         elif moved:
             ctx.probe("moved_but_reported")
+        # ... and the holders of the single-holder roles (appliance control, a zone's sensor, the DHW sensor / valves): a role never
+        # passes from one device to another without the inconsistency being reported
+        roles_now: dict = {}
+        try:
+            for cid, sch in (gwy.schema or {}).items():
+                if not isinstance(sch, dict):
+                    continue
+                roles_now[(cid, "appliance_control")] = (sch.get("system") or {}).get("appliance_control")
+                for zi, zs in (sch.get("zones") or {}).items():
+                    roles_now[(cid, f"zone {zi} sensor")] = (zs or {}).get("sensor")
+                for part, dev in (sch.get("stored_hotwater") or {}).items():
+                    roles_now[(cid, f"dhw {part}")] = dev
+        except Exception:  # noqa  (views that raise are C13's business)
+            roles_now = dict(roles_seen)
+        swapped = [(key, roles_seen[key], dev) for key, dev in roles_now.items()
+                   if dev is not None and roles_seen.get(key) not in (None, dev)]
+        if swapped and n_now == n_inc_before:
+            key, a, b = swapped[0]
+            ctx.violate("C15", "role_replaced_silently", key[1].split()[0], f"{where}: the {key[1]} of {key[0]} was {a} and is now {b}, and no "
+                        f"inconsistency was reported")
+        elif swapped:
+            ctx.probe("role_replaced_but_reported")
+        roles_seen.clear()
+        roles_seen.update(roles_now)
         n_inc_seen[0] = n_now
         place = new
 
